@@ -59,6 +59,11 @@ func init() {
 	generators["C16h"] = func(r *rand.Rand, tier, id string) Case {
 		return genC16(r, tier, id, c16Avoid{empty: true, flush: true, refsave: true, holes: true})
 	}
+	// C16r: one commit whose root is an untouched legacy node (incl. a legacy subtree promoted by
+	// removals), then ordinary history without rollbacks
+	generators["C16r"] = func(r *rand.Rand, tier, id string) Case {
+		return genC16(r, tier, id, c16Avoid{empty: true, flush: true, refsave: true, oneRefsave: true})
+	}
 	runners["m1l"] = runM1L
 }
 
@@ -70,6 +75,7 @@ func init() {
 type c16Avoid struct {
 	empty, flush, refsave bool
 	holes                 bool // legacy-side deletions of single versions in any order ("ldel v")
+	oneRefsave            bool // exactly one commit whose root is an untouched legacy node, no rollback afterwards
 }
 
 // legacy-side settings (lfast: fast index of the legacy library, lcache: its node cache) are
@@ -284,63 +290,89 @@ func genC16(r *rand.Rand, tier, id string, avoid c16Avoid) Case {
 	}
 	legacyPick := func() int64 { return t.versions[r.Intn(len(t.versions))] }
 
-	// scripted openings: the situations named by the property
-	switch r.Intn(10) {
-	case 0: // commits without writes on a legacy root
-		for i, m := 0, 1+r.Intn(3); i < m; i++ {
-			save()
+	if avoid.oneRefsave {
+		// exactly ONE commit whose root is an untouched legacy node: either without writes, or
+		// after removals that may promote a persisted legacy subtree to the root. (A second such
+		// commit, or a rollback below the boundary afterwards, are the recorded findings
+		// C16-history-rewritten / C16-refsave-then-rollback.)
+		if r.Intn(3) != 0 {
+			for i, m := 0, 1+r.Intn(3); i < m; i++ {
+				doRm()
+			}
 		}
+		setSince = false
+		ops = append(ops, []string{"save"})
+		if nv := t.cur + 1; !t.has(nv) {
+			t.versions = append(t.versions, nv)
+			t.cur = nv
+		}
+		t.dirty = false
 		c16sweep(t, first-1, t.latest()+1, &ops)
-	case 1: // rollback to a legacy version straight away
-		lvfo(legacyPick())
-	case 2:
+		c16obs(r, g, t, false, &ops)
 		reopen()
-	case 3: // reference root, then prune exactly at the boundary
-		save()
-		if r.Intn(2) == 0 {
+		c16sweep(t, first-1, t.latest()+1, &ops)
+	} else {
+		// scripted openings: the situations named by the property
+		switch r.Intn(10) {
+		case 0: // commits without writes on a legacy root
+			for i, m := 0, 1+r.Intn(3); i < m; i++ {
+				save()
+			}
+			c16sweep(t, first-1, t.latest()+1, &ops)
+		case 1: // rollback to a legacy version straight away
+			lvfo(legacyPick())
+		case 2:
 			reopen()
+		case 3: // reference root, then prune exactly at the boundary
+			save()
+			if r.Intn(2) == 0 {
+				reopen()
+			}
+			prune(L)
+		case 4: // below the boundary, then at the boundary
+			write()
+			save()
+			if L > first {
+				prune(first + r.Int63n(L-first))
+			}
+			prune(L)
+		case 5: // back to a legacy-only database, then forward again
+			save()
+			write()
+			save()
+			lvfo(L)
+			save()
+		case 6: // nothing but legacy versions: pruning the latest must be refused
+			prune(L)
+			if L > first {
+				prune(L - 1)
+			}
+		case 7: // above the boundary
+			save()
+			write()
+			save()
+			write()
+			save()
+			prune(L + 1)
+		case 8: // rollback below the legacy latest, commit on top, prune around the new boundary
+			v := legacyPick()
+			lvfo(v)
+			write()
+			save()
+			if r.Intn(2) == 0 {
+				reopen()
+			}
+			if v > first {
+				prune(v - 1)
+			}
+			prune(v)
 		}
-		prune(L)
-	case 4: // below the boundary, then at the boundary
-		write()
-		save()
-		if L > first {
-			prune(first + r.Int63n(L-first))
-		}
-		prune(L)
-	case 5: // back to a legacy-only database, then forward again
-		save()
-		write()
-		save()
-		lvfo(L)
-		save()
-	case 6: // nothing but legacy versions: pruning the latest must be refused
-		prune(L)
-		if L > first {
-			prune(L - 1)
-		}
-	case 7: // above the boundary
-		save()
-		write()
-		save()
-		write()
-		save()
-		prune(L + 1)
-	case 8: // rollback below the legacy latest, commit on top, prune around the new boundary
-		v := legacyPick()
-		lvfo(v)
-		write()
-		save()
-		if r.Intn(2) == 0 {
-			reopen()
-		}
-		if v > first {
-			prune(v - 1)
-		}
-		prune(v)
 	}
 
 	w := map[string]int{"set": 30, "rm": 12, "save": 20, "reopen": 8, "prune": 12, "lvfo": 5, "load": 4, "rollback": 2, "read": 8, "whash": 2}
+	if avoid.oneRefsave {
+		w = map[string]int{"set": 30, "rm": 12, "save": 20, "reopen": 8, "prune": 6, "rollback": 2, "read": 8, "whash": 2}
+	}
 	muts := 0
 	for muts < newMuts && len(ops) < 6000 {
 		switch pickWeighted(r, w) {
